@@ -39,8 +39,12 @@ def run(chk):
     expect(chk, "R-PL-LEN", c, r.ret, sign="nonneg", kind=K_ARRAY, tags_has=["cum", "abs"], loc=r.fi.loc())
     # the count is held between peaks: interp1d(kind='previous'), or the library's own interp_left (y[searchsorted(x, x0, 'right') - 1])
     via_left = "searchsorted:right" in r.ret.tags and any(e.callee.endswith("fns.generic.interp_left") for e in r.events("call"))
+    # or the running count with a zero entry put in front, indexed by the number of peaks passed (searchsorted(..., side='right')): entry j is
+    # the count once j peaks have been passed
+    via_count = any("searchsorted:right" in e.index.tags and e.index.kind == K_ARRAY and e.base.f0 and "cum" in e.base.tags
+                    for e in r.events("subscript"))
     chk.ob("R-PL-LEN", c + "[via:interp:previous]", "derives through a previous-value (step) interpolation onto the time index",
-           "interp:previous" in r.ret.tags or via_left, derived="tags %s" % sorted(t for t in r.ret.tags if t.startswith(("interp:", "searchsorted:"))),
+           "interp:previous" in r.ret.tags or via_left or via_count, derived="tags %s" % sorted(t for t in r.ret.tags if t.startswith(("interp:", "searchsorted:"))),
            loc=r.fi.loc())
     chk.ob("R-PL-LEN", c + "[len]", "first dimension is the record's length", r.ret.shape is not None and r.ret.shape[0] == LinExpr("n"),
            derived="shape %r" % (r.ret.shape,), loc=r.fi.loc(), inconclusive=(r.ret.shape is None and r.ret.indef))
@@ -95,7 +99,7 @@ def run(chk):
         r = analyse(chk, PK + q, lambda I, st, fi: dict(values=rec_array("values")), setup=setup)
         c = "eqsig/fns/peaks_and_crossings.py:" + q
         unmodelled_in(r, chk, "R-PK-SHIFT", c)
-        cls_ = [e for e in r.I.events if e.fn == PK + q and e.kind == "call" and e.callee.endswith("clean_out_non_changing")]
+        cls_ = [e for e in r.events("call", PK + q) if e.callee.endswith("clean_out_non_changing")]
         if len(cls_) != 1:
             chk.ob("R-PK-SHIFT", c + "{order}", "one call of the cleaning routine", False, derived="%d" % len(cls_), loc=r.fi.loc(), inconclusive=not cls_)
         else:
